@@ -28,8 +28,10 @@ RULE = ('Programs from the typed generator G (labels, DEFtype ranges, >= 2 '
         'directory and reversed batch order, in two of them each text '
         'preceded by a sibling program with the same names but other record '
         'sizes, array bounds, CONST values and DEFtype types.  sha256 of sections 1-4 and of '
-        'str(code) must agree everywhere; each accepted module is run twice '
-        'in-process and once per child: trace, outcome and tick count must '
+        'str(code) must agree everywhere; each accepted module (O0 and '
+        'O2-g) is run twice in-process and once per child; one case in three '
+        'comes from the DATA / RESTORE-label or the ON ERROR / RESUME '
+        'generator: trace, outcome and tick count must '
         'agree.  Non-trivial: accepted and at least two of {procedure, '
         'label (GOTO/GOSUB), DEFtype, STATIC or SHARED variable} (the places '
         'where sets and shared registries are involved).')
@@ -40,6 +42,7 @@ ASSUMPTIONS = [
     'by the property itself',
 ]
 CONFIGS = [(0, False), (2, False), (2, True)]
+RUN_CONFIGS = [(0, False), (2, True)]     # modules that are also executed
 _batch = []          # (text, script, key) of this shard, for the child runs
 
 
@@ -58,9 +61,25 @@ def setup_worker(cfg):
     del _batch[:]
 
 
+@st.composite
+def other_programs(draw):
+    """Programs of the DATA / RESTORE-label generator (C15) and of the
+    ON ERROR / RESUME generator (C10): label tables and the statement lookup
+    of RESUME are places where sets and caches could leak."""
+    if draw(st.booleans()):
+        from props.c15 import data_programs
+        prog, stats = draw(data_programs())
+        return prog, {}, dict(stats, data_generator=1)
+    from props.c10 import error_programs
+    prog, stats = draw(error_programs())
+    return prog, {}, dict(stats, error_generator=1)
+
+
 def strategy(cfg):
-    return st.tuples(gen.programs(cfg['params']), gen.styles(),
-                     st.integers(0, 10 ** 6), st.booleans())
+    return st.tuples(
+        st.one_of(gen.programs(cfg['params']), gen.programs(cfg['params']),
+                  other_programs()),
+        gen.styles(), st.integers(0, 10 ** 6), st.booleans())
 
 
 def variant(prog):
@@ -119,12 +138,13 @@ def check(case, cfg):
         b = X.compile_one(text, *c)
         if hashes(b) != first[tuple(c)]:
             failures.append(('same_process_repeat', {'config': list(c)}))
-        if a.kind == 'accepted' and c == CONFIGS[0]:
+        if a.kind == 'accepted' and c in RUN_CONFIGS:
             accepted = True
             r1 = X.execute(a.module, sc, tick_budget=cfg['tick_budget'])
             r2 = X.execute(b.module, sc, tick_budget=cfg['tick_budget'])
             if run_hash(r1) != run_hash(r2):
                 failures.append(('execution_repeat', {
+                    'config': list(c),
                     'o1': r1.outcome[:2], 'o2': r2.outcome[:2],
                     't1': r1.ticks, 't2': r2.ticks}))
     # history: compile earlier texts of this shard (other programs, other
@@ -174,11 +194,12 @@ def finish_shard(cfg):
         for c in CONFIGS:
             base['%d:%d:%d' % (i, c[0], int(c[1]))] = hashes(
                 X.compile_one(t, *c))
-        c0 = X.compile_one(t, *CONFIGS[0])
-        if c0.kind == 'accepted':
-            runs0[str(i)] = run_hash(X.execute(
-                c0.module, X.Script(**scripts[i]),
-                tick_budget=cfg['tick_budget']))
+        for rc in RUN_CONFIGS:
+            c0 = X.compile_one(t, *rc)
+            if c0.kind == 'accepted':
+                runs0['%d:%d' % (i, int(rc[1]))] = run_hash(X.execute(
+                    c0.module, X.Script(**scripts[i]),
+                    tick_budget=cfg['tick_budget']))
     tmp = tempfile.mkdtemp(prefix='c20_')
     try:
         bf = os.path.join(tmp, 'batch.json')
@@ -187,6 +208,7 @@ def finish_shard(cfg):
         for seedv, order in conds:
             with open(bf, 'w') as f:
                 json.dump({'verif_root': ROOT, 'texts': texts,
+                           'run_configs': RUN_CONFIGS,
                            'variants': variants if order == 'reverse'
                            else None,
                            'scripts': scripts, 'configs': CONFIGS,
@@ -230,8 +252,8 @@ def finish_shard(cfg):
                     out.append({'key': None, 'classes': [], 'failures': [{
                         'bucket': 'child_execution:hashseed=%s' % seedv,
                         'detail': {'parent': runs0.get(i), 'child': h},
-                        'case': {'text': texts[int(i)],
-                                 'script': scripts[int(i)]}}]})
+                        'case': {'text': texts[int(i.split(':')[0])],
+                                 'script': scripts[int(i.split(':')[0])]}}]})
     finally:
         import shutil
         shutil.rmtree(tmp, ignore_errors=True)
